@@ -16,7 +16,7 @@ from ..model import AnalysisError, Func, parse_shape_text
 from ..terms import T, walk_terms
 from ..absint import AV, TOP, cav, is_bot
 from ..walk import (call_parts, call_arg, is_call_to, const_val, NOVAL, unwrap_gamma, mult_factors, call_paths, callee_func,
-                    callee_name, ctx_tree, norm_stmt, strip_views, guard_means_given, newaxis_insertions)
+                    callee_name, ctx_tree, norm_stmt, strip_views, guard_means_given, newaxis_insertions, axis_reordering)
 from ..nptable import einsum_parse
 
 D = 'pb_bss.distribution.'
@@ -46,6 +46,7 @@ TRAINERS_WITH_RANDOM_INIT = [
 def positive_floor(t):
     """syntactic recognition of a positive floor constant: finfo(..).tiny/eps, positive literal, k * such"""
     if isinstance(t, T):
+        t = strip_views(t)
         if t.op == 'const' and isinstance(t.args[0], (int, float)) and not isinstance(t.args[0], bool) and t.args[0] > 0:
             return True
         if t.op == 'attr' and t.args[1] in ('tiny', 'eps') and is_call_to(t.args[0], 'numpy.finfo'):
@@ -434,6 +435,10 @@ def check_weights_and_initialisers(run, A):
                     if alt.op == 'tuple' and len(alt.args[0]) >= 2:
                         k = alt.args[0][-2]
                         size_ok = any(x.op == 'param' and x.args[0] == 'num_classes' for x in walk_terms(k))
+                    elif alt.op == 'binop' and alt.args[0] == 'Add' and strip_views(alt.args[2]).op == 'tuple' and len(strip_views(alt.args[2]).args[0]) >= 2:
+                        # leading shape + (num_classes, N)
+                        k = strip_views(alt.args[2]).args[0][-2]
+                        size_ok = any(x.op == 'param' and x.args[0] == 'num_classes' for x in walk_terms(k))
                     elif alt.op == 'sub':
                         # affiliation_shape[-2:] of a tuple (…, num_classes, N)
                         base = strip_views(alt.args[0])
@@ -485,9 +490,8 @@ def check_weights_and_initialisers(run, A):
             t = strip_views(t)
             if is_call_to(t, 'numpy.broadcast_to'):
                 t = strip_views(call_arg(t, 0))
-            if is_call_to(t, 'numpy.swapaxes') and {const_val(call_arg(t, 1)), const_val(call_arg(t, 2))} == {-1, -2}:
-                good += 1
-            elif t.op == 'attr' and t.args[1] == 'T':
+            r_ = axis_reordering(t)
+            if r_ is not None and r_[1] in (('swap', frozenset((-1, -2))), ('reverse',), ('perm', (1, 0)), ('swap', frozenset((0, 1)))):
                 good += 1
         run.check(good == len(alts) and good >= 2, 'R-AXIS', f'iid.{name}: class axis moved to -2 on every path', f.loc(), '',
                   f'{name}: {good} of {len(alts)} return paths transpose the class axis into position -2', construct=f'R-AXIS::iid.{name}::transpose')
